@@ -363,9 +363,53 @@ def r15_7(prog: Program, chk: Check) -> None:
         )
 
 
+# ------------------------------------------------------------------- R15.8
+def r15_8(prog: Program, chk: Check) -> None:
+    chk.rule(
+        "R15.8",
+        "a bound on a type variable never travels without the variable's declared bound and constraints: every LowerBound / UpperBound constructed for `X.typevar` (outside the solver) "
+        "sits in a list that also spreads `X.get_inherent_bounds()`, or the enclosing test establishes a ParamSpec (`X.is_paramspec` / `kind is ParameterKind.PARAM_SPEC`), which has neither; otherwise the solver can choose a solution outside the "
+        "declared bound (e.g. type[T] matched against a class)",
+        floor=2,
+    )
+    n = 0
+    for m, q, fn in prog.iter_functions():
+        if m == "typevar" or q.endswith(".get_inherent_bounds"):
+            continue  # the solver builds bounds from bounds; get_inherent_bounds is their source
+        for node in walk_no_nested(fn):
+            if not (isinstance(node, ast.Call) and isinstance(node.func, ast.Name) and node.func.id in ("LowerBound", "UpperBound") and node.args):
+                continue
+            tv = node.args[0]
+            if not (isinstance(tv, ast.Attribute) and tv.attr == "typevar"):
+                continue
+            owner = norm(tv.value)
+            n += 1
+            # (a) the same list display spreads the owner's inherent bounds
+            p = parent(node)
+            in_list = isinstance(p, ast.List) and any(isinstance(e, ast.Starred) and norm(e.value) == f"{owner}.get_inherent_bounds()" for e in p.elts)
+            # (b) an enclosing test establishes that the owner is a ParamSpec
+            paramspec = False
+            child: ast.AST = node
+            up = parent(node)
+            while up is not None and up is not fn:
+                if isinstance(up, ast.If) and any(child is st or any(x is child for x in ast.walk(st)) for st in up.body) and (f"{owner}.is_paramspec" in norm(up.test) or "ParameterKind.PARAM_SPEC" in norm(up.test)):
+                    paramspec = True
+                child = up
+                up = parent(up)
+            chk.ob(
+                "R15.8",
+                f"{m}::{q}::bound-for::{owner}::{node.func.id}",
+                in_list or paramspec,
+                prog.site(m, node),
+                f"`{norm(node)[:70]}` constrains {owner}.typevar without `*{owner}.get_inherent_bounds()`: the declared bound / constraints of the type variable are lost for this match",
+            )
+    chk.analysed["bound_constructions_outside_solver"] = n
+
+
 def run(prog: Program, chk: Check) -> None:
     guard(chk, r15_1, prog, chk)
     guard(chk, r15_2, prog, chk)
     guard(chk, r15_4, prog, chk)
     guard(chk, r15_5, prog, chk)
     guard(chk, r15_7, prog, chk)
+    guard(chk, r15_8, prog, chk)
